@@ -36,6 +36,9 @@ SUITE_DOMAINS = ['packing']
 def plan(tier: str, seed: int):
     rounds = 1 if tier == "quick" else 6
     return _plan(tier, seed) + [
+        # the same workload once in an interpreter started with -O
+        {"name": "opt", "engine": "opt", "timeout": 3000,
+         "args": {"n": 180 if tier == "quick" else 1800}}] + [
         {"name": f"suite{i}", "engine": "jit", "timeout": 3000,
          "args": {"mode": "suite", "tests": SUITE_TESTS,
                   "domains": SUITE_DOMAINS, "rounds": rounds}}
